@@ -742,7 +742,17 @@ class Fn:
             return E("const", c["int"], c)
         if "deref_int" in c:
             return E("const", c["deref_int"], c)
-        s = c.get("pval") or c.get("c", "?")
+        if c.get("promoted") and c.get("pbody"):
+            # promoted `&CONST` / `&Enum::Variant`: render what the promoted body is built from
+            names = [short_path(n) if "::" in n and " " not in n else n for n in c["pbody"]]
+            return E("const", names[0] if len(names) == 1 else "promoted(%s)" % ", ".join(names), c)
+        if c.get("promoted"):
+            pv = c.get("pval", "")
+            if pv and "alloc" not in pv:
+                return E("const", re.sub(r"^const ", "", pv), c)
+            # allocation ids are not stable across builds: render by type only
+            return E("const", "promoted<%s>" % short_path(c.get("ty", "?"), 1), c)
+        s = c.get("c", "?")
         s = re.sub(r"^const ", "", s)
         s = re.sub(r"_(u|i)(8|16|32|64|128|size)$", "", s)
         return E("const", s, c)
